@@ -75,7 +75,17 @@ impl<'de> Deserialize<'de> for MessageType {
             "m.text" => Self::Text(from_raw_json_value(&json)?),
             "m.video" => Self::Video(from_raw_json_value(&json)?),
             "m.key.verification.request" => Self::VerificationRequest(from_raw_json_value(&json)?),
-            _ => Self::_Custom(from_raw_json_value(&json)?),
+            _ => {
+                let mut content: super::CustomEventContent = from_raw_json_value(&json)?;
+
+                // These fields are handled by the types that contain the `MessageType`, they must
+                // not end up in the remaining data or they would be serialized twice.
+                for field in ["m.relates_to", "m.new_content", "m.mentions"] {
+                    content.data.remove(field);
+                }
+
+                Self::_Custom(content)
+            }
         })
     }
 }
